@@ -1,0 +1,55 @@
+//go:build verif
+
+// Contracts for govc (see /verif/DESIGN.md). Comment-only file.
+
+package lexer
+
+//@ property C31 C32
+//@ pragma autoinline 30
+
+//@ spec lxOK(lxr *Lexer) bool = 0 <= lxr.si && lxr.si <= len(lxr.src)
+// the byte read() reports for source byte b (NUL is mapped to 0xff because 0 means end of input)
+//@ spec readByte(b byte) byte = b == 0 ? 255 : b
+
+//@ func (lxr *Lexer) read() (c)
+//@   requires lxr != nil && lxOK(lxr)
+//@   modifies lxr.si
+//@   ensures! eof: old(lxr.si) >= len(lxr.src) ==> c == 0 && lxr.si == old(lxr.si)
+//@   ensures! byte: old(lxr.si) < len(lxr.src) ==> c == readByte(lxr.src[old(lxr.si)]) && lxr.si == old(lxr.si) + 1 && c != 0
+//@ func (lxr *Lexer) peek() (c)
+//@   requires lxr != nil && lxOK(lxr)
+//@   ensures! (lxr.si >= len(lxr.src) ==> c == 0) && (lxr.si < len(lxr.src) ==> c == lxr.src[lxr.si])
+//@ func digit(c, radix) (r)
+//@   ensures! r == (asciiDigitVal(c) < radix ? asciiDigitVal(c) : -1)
+
+// doesc: c is the byte just read; for a backslash the escape is consumed, or
+// nothing is consumed and the backslash itself is returned
+//@ func (lxr *Lexer) doesc(c) (r)
+//@   requires lxr != nil && lxOK(lxr)
+//@   modifies lxr.si
+//@   ensures! pos: lxOK(lxr) && lxr.si >= old(lxr.si) && lxr.si <= old(lxr.si) + 3
+//@   ensures! plain: c != 92 ==> r == c && lxr.si == old(lxr.si)
+
+// rawString: a back-quoted string is a String token only when the closing quote was found
+//@ func (lxr *Lexer) rawString(start) (r)
+//@   requires lxr != nil && lxOK(lxr) && 0 <= start && start < lxr.si && lxr.src[start] == 96 && lxr.si == start + 1
+//@   modifies lxr.si
+//@   ensures! pos: lxOK(lxr) && lxr.si >= old(lxr.si)
+//@   ensures! terminated: r.Token == tokens.String ==> lxr.si > old(lxr.si) && lxr.src[lxr.si - 1] == 96 && len(r.Text) == lxr.si - start - 2 && forall k :: 0 <= k && k < len(r.Text) ==> r.Text[k] == lxr.src[start + 1 + k] && r.Text[k] != 96
+//@   ensures! unterminated: r.Token != tokens.String ==> r.Token == tokens.Error && lxr.si == len(lxr.src)
+//@   loop 0 invariant lxOK(lxr) && lxr.si >= old(lxr.si) && forall k :: old(lxr.si) <= k && k < lxr.si ==> lxr.src[k] != 96
+//@   loop 0 decreases len(lxr.src) - lxr.si
+
+// quotedString: a quoted literal is a String token only when its closing quote was found
+//@ func (lxr *Lexer) quotedString(start, quote) (r)
+//@   requires lxr != nil && lxOK(lxr) && (quote == 34 || quote == 39)
+//@   modifies lxr.si
+//@   ensures! pos: lxOK(lxr) && lxr.si >= old(lxr.si)
+//@   ensures! terminated: r.Token == tokens.String ==> lxr.si > old(lxr.si) && lxr.src[lxr.si - 1] == quote
+//@   ensures! unterminated: r.Token != tokens.String ==> r.Token == tokens.Error && lxr.si == len(lxr.src)
+//@   loop 0 invariant 0 <= i && i <= len(src) && forall k :: 0 <= k && k < i ==> src[k] != 92 && src[k] != quote
+//@   loop 0 decreases len(src) - i
+//@   loop 1 invariant frame()
+//@   loop 1 invariant ref(sb.buf) == nil || fresh(sb.buf)
+//@   loop 1 invariant lxOK(lxr) && lxr.si >= old(lxr.si) && ((c == 0 && lxr.si == len(lxr.src)) || (c != 0 && lxr.si > old(lxr.si) && readByte(lxr.src[lxr.si - 1]) == c))
+//@   loop 1 decreases len(lxr.src) - lxr.si + (c != 0 ? 1 : 0)
